@@ -90,6 +90,10 @@ def stepU (op : String) (args : List String) : String :=
          (match u.int64 with | some v => "ok:" ++ hex16 v.toNat | none => "err")
      | none => "bad-op")
   | "from64", [v] => (match hexToNat? v with | some n => uStr (U128.from64 (BitVec.ofNat 64 n)) | none => "bad-op")
+  | "comps", [p] =>
+    (match parsePair? p with
+     | some (h, l) => pairStr h l ++ " " ++ pairStr h l ++ " " ++ b2s (h == 0#64 && l == 0#64)
+     | none => "bad-op")
   | _, _ => "bad-op"
 
 def stepI (op : String) (args : List String) : String :=
@@ -128,6 +132,11 @@ def stepI (op : String) (args : List String) : String :=
      | none => "bad-op")
   | "from64", [v] => (match hexToNat? v with | some n => iStr (I128.from64 (BitVec.ofNat 64 n)) | none => "bad-op")
   | "fromu64", [v] => (match hexToNat? v with | some n => iStr (I128.fromUint64 (BitVec.ofNat 64 n)) | none => "bad-op")
+  | "comps", [p] =>
+    (match parsePair? p with
+     | some (h, l) => pairStr h l ++ " " ++ pairStr h l ++ " " ++ b2s (h == 0#64 && l == 0#64)
+     | none => "bad-op")
+  | "abs", [p] => (match parsePair? p with | some (h, l) => uStr (I128.absUint128 ⟨h, l⟩) | none => "bad-op")
   | _, _ => "bad-op"
 
 def step (_ : Unit) (line : String) : Unit × String :=
